@@ -33,7 +33,9 @@ class Prop(ConnProp):
             "send / shutdown / forceClose / re-assign), 12% a re-bind block (notification scheduled, callback replaced or "
             "cleared before delivery), 40% are free of callback scripts; oracle: exact backlog replay incl. callback identity "
             "up to the first operation made inside a callback, on all histories: neither callback ever runs inside a user "
-            "operation (only while the loop iterates), identities installed before, argument >= a mark in force; "
+            "operation (only while the loop iterates) and never after the connection object is gone (6% of the histories end "
+            "with an outlive block: notifications / foreign sends still queued when the owner destroys the connection), "
+            "identities installed before, argument >= a mark in force; "
             "asserts-on/NDEBUG x epoll/poll")
     trusted_base = TRUSTED
     assumptions = ASSUME
